@@ -156,7 +156,7 @@ func (ex *Exec) canInline(fn *ssa.Function) bool {
 		n += len(b.Instrs)
 		for _, in := range b.Instrs {
 			switch in.(type) {
-			case *ssa.Go, *ssa.Select, *ssa.Send, *ssa.MakeChan:
+			case *ssa.Select, *ssa.Send:
 				return false
 			}
 		}
@@ -435,6 +435,11 @@ func (ex *Exec) builtin(fr *frame, st *State, reach *Term, b *ssa.Builtin, c *ss
 	case "copy":
 		ex.unsupportedAt(instr, "builtin copy")
 	case "print", "println":
+		return nil, reach
+	case "close":
+		// closing a nil channel panics; closing a closed channel (not modelled: channels have no state) is not checked
+		ex.vc.note("close(ch): only ch != nil is checked (a second close of the same channel is not modelled)")
+		ex.safeOblige(fr, reach, Not(Eq(args[0].(*Term), IntLit(0))), "nilchan", instr)
 		return nil, reach
 	case "min", "max":
 		acc := args[0].(*Term)
@@ -732,6 +737,8 @@ func (ex *Exec) scanInstr(fr *frame, in ssa.Instruction, ms *modSet, depth int, 
 	case *ssa.MapUpdate:
 		fresh = ms.freshRoot(x.Map)
 		addMap(types.Unalias(x.Map.Type()).Underlying().(*types.Map))
+	case *ssa.MakeChan:
+		addAlive()
 	case *ssa.MakeMap:
 		addAlive()
 		fresh = true
@@ -757,8 +764,10 @@ func (ex *Exec) scanInstr(fr *frame, in ssa.Instruction, ms *modSet, depth int, 
 				ms.add(name, ex.compSorts[name])
 			}
 		}
-	case *ssa.Go, *ssa.Send, *ssa.Select:
+	case *ssa.Send, *ssa.Select:
 		ms.setAll(fmt.Sprintf("site2 %v", ""))
+	case *ssa.Go:
+		ex.scanCall(fr, &x.Call, ms, depth, visiting)
 	case *ssa.Defer:
 		ex.scanCall(fr, &x.Call, ms, depth, visiting)
 	case *ssa.Call:
